@@ -118,7 +118,8 @@ def load_replay(path):
     return {"table": table, "ops": [(fix_op(op), fa) for op, fa in r["ops"]], "nd": r["nd"]}
 
 
-def run(pid, tier, bit, gens, n_quick, n_thorough, assumptions, also_model=True, sig_fn=signature, post=None):
+def run(pid, tier, bit, gens, n_quick, n_thorough, assumptions, also_model=True, sig_fn=signature, post=None,
+        aimed=None):
     """gens: list of (weight, kwargs for inst_gen.gen_case); bit: the oracle bit(s) of this property."""
     chk = Check(pid, tier)
     chk.proofs(extra_targets=["Corr/InstCorr.vo"])
@@ -131,6 +132,8 @@ def run(pid, tier, bit, gens, n_quick, n_thorough, assumptions, also_model=True,
             kw2 = dict(kw)
             n_ops = kw2.pop("n_ops", 6 if tier == "quick" else 10)
             cases.append(ig.gen_case(rng, n_ops, **kw2))
+    if aimed:
+        cases += aimed(rng, tier)
     bad, logs = ic.evaluate(pid, cases, trace_every=3 if tier == "quick" else 5)
     want = bit | (1 if also_model else 0)
     reported = set()
